@@ -19,6 +19,9 @@ type Scenario struct {
 	// Make returns the bodies, the address ranges of shared memory (stores into them are scheduling
 	// points; nil = every instrumented store) and a judge for one execution.
 	Make func() (bodies []func() any, shared [][2]uintptr, judge func(results []any) string)
+	// Rescan (optional) is called with the index of the execution's Make call... no: it recomputes the shared ranges
+	// of the CURRENT execution (the scenario keeps the roots of its latest Make); see vsched.Options.Rescan
+	Rescan func() [][2]uintptr
 }
 
 type Finding struct {
@@ -32,6 +35,7 @@ type Stats struct {
 	Schedules   int
 	Points      int
 	MaxPoints   int
+	Rescans     int // re-computations of the shared address set after stores into shared memory
 	Bound       int
 	Complete    bool // the bound was explored completely (no cap hit)
 	Findings    []Finding
@@ -58,7 +62,8 @@ func Explore(sc Scenario, bound, maxSchedules int, heartbeat func()) *Stats {
 	defer debug.SetGCPercent(old)
 	runOne := func(prefix []int) *vsched.Exploration {
 		bodies, shared, judge := sc.Make()
-		x := vsched.Run(bodies, prefix, vsched.Options{Shared: shared})
+		x := vsched.Run(bodies, prefix, vsched.Options{Shared: shared, Rescan: sc.Rescan})
+		st.Rescans += x.Rescans
 		st.Schedules++
 		st.Points += len(x.Points)
 		if len(x.Points) > st.MaxPoints {
